@@ -405,6 +405,8 @@ pub struct Recovered {
     pub recovery_events: Vec<Ev>,
     /// partition invariant of the recovered store (C05): Err(sig, msg) if violated
     pub partition: Result<(u64, u64), (String, String)>,
+    /// exact accounting of the recovered store (C13): memory_usage() and len() against the recovered keys
+    pub acct: Result<(), String>,
 }
 
 /// Open `image` with the real store (recovery runs, read-write), dump it. The store
@@ -434,8 +436,18 @@ pub fn recover_image(image: &[u8], path: &str, version: u32, trace: bool, keep: 
     let dump = storeutil::dump(&store);
     let len = store.len();
     let partition = crate::engines::layout::check_partition(&store.verif_snapshot(), version, &[]);
+    let acct = {
+        let snap = store.verif_snapshot();
+        let overhead = storeutil::record_overhead();
+        let sum: usize = snap.entries.iter().map(|e| overhead + e.key.len() + e.value_len).sum();
+        if store.memory_usage() != sum || len != snap.entries.len() {
+            Err(format!("after recovery memory_usage() = {} but the {} recovered keys add up to {} (overhead {overhead}); len() = {len}", store.memory_usage(), snap.entries.len(), sum))
+        } else {
+            Ok(())
+        }
+    };
     feoxdb::verif::set_thread_now_ns(0);
-    let rec = Recovered { dump, len, recovery_events, partition };
+    let rec = Recovered { dump, len, recovery_events, partition, acct };
     if keep {
         Ok((rec, Some(store)))
     } else {
@@ -783,6 +795,9 @@ pub fn run(args: &Args) -> Report {
                             format!("crash image cannot be reopened: {e}"),
                             replay(json!({"m6": indep::scan(&image, None, true).map(|s| s.records.len()).map_err(|e| e)})),
                         );
+                    }
+                    Ok((rec, _)) if rec.acct.is_err() => {
+                        local.violation("recovered:acct", format!("store recovered from a crash image: {}", rec.acct.as_ref().unwrap_err()), replay(json!(null)));
                     }
                     Ok((rec, _)) if partition_only => {
                         // C05: the store obtained by recovery from any crash image is exactly partitioned
